@@ -25,7 +25,6 @@ import (
 type ConnManager struct {
 	m     map[uuid.UUID]*Conn
 	mutex *sync.RWMutex
-	epoch int
 }
 
 // NewConnManager returns a connection map.
@@ -33,7 +32,6 @@ func NewConnManager() *ConnManager {
 	return &ConnManager{
 		m:     map[uuid.UUID]*Conn{},
 		mutex: &sync.RWMutex{},
-		epoch: 0,
 	}
 }
 
@@ -43,25 +41,6 @@ func (mgr *ConnManager) AddConn(c *Conn) {
 	defer mgr.mutex.Unlock()
 	uuid := c.UUID()
 	mgr.m[uuid] = c
-}
-
-// currentEpoch returns the number of the current run of the manager, every stop begins a new one.
-func (mgr *ConnManager) currentEpoch() int {
-	mgr.mutex.RLock()
-	defer mgr.mutex.RUnlock()
-	return mgr.epoch
-}
-
-// addConnOf adds the connection if it was accepted in the current run of the
-// manager, otherwise it returns false.
-func (mgr *ConnManager) addConnOf(epoch int, c *Conn) bool {
-	mgr.mutex.Lock()
-	defer mgr.mutex.Unlock()
-	if mgr.epoch != epoch {
-		return false
-	}
-	mgr.m[c.UUID()] = c
-	return true
 }
 
 // Conns returns the included connections.
@@ -115,10 +94,6 @@ func (mgr *ConnManager) Close() error {
 
 // Stop closes all connections.
 func (mgr *ConnManager) Stop() error {
-	// Connections accepted before the stop are not added after it.
-	mgr.mutex.Lock()
-	mgr.epoch++
-	mgr.mutex.Unlock()
 	if err := mgr.Close(); err != nil {
 		return err
 	}
